@@ -268,8 +268,13 @@ def unit(u, res):
                 claim = z3.BoolVal(False)
             elif tok_name(meta, tok) == 'Int':
                 claim = z3.And(fits, z3.ZeroExt(64, tok.fields[0].t) == val)
+            elif kind == 'dec' and tok_name(meta, tok) == 'Float':
+                # a digit string beyond the i64 range is a float literal in positional notation (the fixed rendering of a large double)
+                claim = z3.And(z3.Not(fits), tok.fields[0].t == parse_uf(ds))
+            elif kind == 'hex' and tok_name(meta, tok) == 'Identifier':
+                claim = z3.And(z3.Not(fits), str_payload_eq(tok, [z3.BitVecVal(ord('0'), 32), z3.BitVecVal(ord('x'), 32)] + ds))
             else:
-                claim = z3.Not(fits)
+                claim = z3.BoolVal(False)
             oblige('%s literal with %d digits' % (kind, d), chars, o, claim, '%s-integer-literal-wrong' % kind)
     elif kind == 'template':
         tmpl, expect = spec
